@@ -48,9 +48,13 @@ class ProtocolHandler:
 
         # Get method - only requests/notifications have method
         method = getattr(message, "method", None)
+        # Notifications carry no id and never get a response
+        msg_id = getattr(message, "id", None)
+        is_notification = msg_id is None
+
         if not method:
-            # Get ID if available (not on notifications)
-            msg_id = getattr(message, "id", None)
+            if is_notification:
+                return None, None
             return self.create_error_response(msg_id, -32600, "Invalid request"), None
 
         # Update session activity
@@ -59,18 +63,21 @@ class ProtocolHandler:
 
         handler = self._handlers.get(method)
         if not handler:
-            # Get ID if available (not on notifications)
-            msg_id = getattr(message, "id", None)
+            if is_notification:
+                return None, None
             return self.create_error_response(
                 msg_id, -32601, f"Method not found: {method}"
             ), None
 
         try:
-            return await handler(message, session_id)
+            result = await handler(message, session_id)
+            if is_notification:
+                return None, None
+            return result
         except Exception as e:
             logging.error(f"Handler error for {method}: {e}")
-            # Get ID if available (not on notifications)
-            msg_id = getattr(message, "id", None)
+            if is_notification:
+                return None, None
             return self.create_error_response(
                 msg_id, -32603, f"Internal error: {str(e)}"
             ), None
